@@ -82,11 +82,15 @@ func (r *c05Run) one(kind string, in query.Q, src string, f func(query.Q) query.
 	return out
 }
 
-func (r *c05Run) all(q *corpus.Q) {
+// all runs the four query-level rewrites; with thin (thorough tier, where the exhaustive family is
+// 14 times larger) the two steps Simplify is composed of are recorded on every third tree only.
+func (r *c05Run) all(q *corpus.Q, thin bool) {
 	src := ""
 	verifkit.Catch(func() { src = q.Zoekt().String() })
-	r.one("evalconst", q.Zoekt(), src, query.VerifC05EvalConstants)
-	r.one("flatten", q.Zoekt(), src, query.VerifC05Flatten)
+	if !thin {
+		r.one("evalconst", q.Zoekt(), src, query.VerifC05EvalConstants)
+		r.one("flatten", q.Zoekt(), src, query.VerifC05Flatten)
+	}
 	r.one("simplify", q.Zoekt(), src, query.Simplify)
 	r.one("expand", q.Zoekt(), src, func(x query.Q) query.Q { return query.Map(x, query.ExpandFileContent) })
 }
@@ -109,7 +113,7 @@ func TestVerif_C05_Scripts(t *testing.T) {
 			if err != nil {
 				t.Fatal(err)
 			}
-			r.all(q)
+			r.all(q, verifkit.Thorough() && i%3 != 0)
 		}
 	}
 	t.Logf("c05 scripts: %v", r.counts)
@@ -212,7 +216,7 @@ func TestVerif_C05_Random(t *testing.T) {
 			continue
 		}
 		made++
-		r.all(q)
+		r.all(q, false)
 	}
 	t.Logf("c05 random: %v", r.counts)
 }
